@@ -534,6 +534,136 @@ def check_response_payload(ctx: Ctx, rule: str) -> None:
                 ctx.ob(rule, "build_response: patchType is 'JSONPatch'", isinstance(v, ast.Constant) and v.value == 'JSONPatch', loc=f.loc(v),
                        construct=construct(f, 'config:patchType'))
 
+
+# ---------------------------------------------------------------------------------------------------------------- round 4
+def _display_bound(f, e: ast.AST, depth: int = 3) -> Optional[int]:
+    """Upper bound on the number of elements of a list/set expression built from displays (None = unknown)."""
+    from ..rules import origin
+    e = origin(f, e, depth)
+    if isinstance(e, (ast.List, ast.Tuple, ast.Set)):
+        return None if any(isinstance(x, ast.Starred) for x in e.elts) else len(e.elts)
+    if isinstance(e, ast.IfExp):
+        a, b = _display_bound(f, e.body, depth), _display_bound(f, e.orelse, depth)
+        return None if a is None or b is None else max(a, b)
+    if isinstance(e, ast.Call) and isinstance(e.func, ast.Name) and e.func.id in ('set', 'list', 'frozenset', 'tuple') and len(e.args) == 1:
+        return _display_bound(f, e.args[0], depth)
+    if isinstance(e, ast.Call) and isinstance(e.func, ast.Name) and e.func.id in ('set', 'list', 'frozenset', 'tuple') and not e.args:
+        return 0
+    if isinstance(e, ast.BinOp) and isinstance(e.op, ast.Sub):
+        return _display_bound(f, e.left, depth)
+    if isinstance(e, ast.BinOp) and isinstance(e.op, (ast.BitOr, ast.Add)):
+        a, b = _display_bound(f, e.left, depth), _display_bound(f, e.right, depth)
+        return None if a is None or b is None else a + b
+    if isinstance(e, ast.BinOp) and isinstance(e.op, ast.BitAnd):
+        a, b = _display_bound(f, e.left, depth), _display_bound(f, e.right, depth)
+        return a if b is None else b if a is None else min(a, b)
+    return None
+
+
+def _is_set_expr(f, e: ast.AST) -> bool:
+    from ..rules import origin
+    e = origin(f, e)
+    if isinstance(e, (ast.Set, ast.SetComp)):
+        return True
+    if isinstance(e, ast.Call) and isinstance(e.func, ast.Name) and e.func.id in ('set', 'frozenset'):
+        return True
+    if isinstance(e, ast.BinOp) and isinstance(e.op, (ast.Sub, ast.BitOr, ast.BitAnd, ast.BitXor)):
+        return _is_set_expr(f, e.left) or _is_set_expr(f, e.right)
+    return False
+
+
+def check_key_order_deterministic(ctx: Ctx, rule: str) -> None:
+    """conventions.*.make_keys: the list of candidate keys has a fixed order (V2 first, V1 as the fallback) on every run: it is not produced by iterating a
+    set of more than one string (string hashing is randomised per process, so such an order -- and with it which record `fetch` prefers -- changes with a restart)."""
+    repo = ctx.repo
+    f = repo.fn('conventions.StorageKeyFormingConvention.make_keys')
+    ctx.analysed(f)
+    rets = [n for n in walk_no_defs(f.node) if isinstance(n, ast.Return) and n.value is not None]
+    ctx.require_sites(rule, 'make_keys: return of the key list', len(rets), 1, f.loc())
+    for r in rets:
+        bad = []
+        for x in ast.walk(r.value):
+            # a set turned into a sequence, or iterated by a comprehension
+            arg = None
+            if isinstance(x, ast.Call) and isinstance(x.func, ast.Name) and x.func.id in ('list', 'tuple') and len(x.args) == 1 and _is_set_expr(f, x.args[0]):
+                arg = x.args[0]
+            if isinstance(x, (ast.ListComp, ast.GeneratorExp)) and any(_is_set_expr(f, gen.iter) for gen in x.generators):
+                arg = [gen.iter for gen in x.generators if _is_set_expr(f, gen.iter)][0]
+            if isinstance(x, ast.Starred) and _is_set_expr(f, x.value):
+                arg = x.value
+            if arg is not None:
+                b = _display_bound(f, arg)
+                if b is None or b > 1:
+                    bad.append(f'{norm(arg, 50)} (up to {b if b is not None else "?"} elements)')
+        from ..rules import origin
+        v = r.value
+        first = v
+        while isinstance(first, ast.BinOp) and isinstance(first.op, ast.Add):
+            first = first.left
+        fo = origin(f, first)
+        v2_first = any(method_call(c, 'make_v2_key') is not None for c in calls_in(fo)) and not any(method_call(c, 'make_v1_key') is not None for c in calls_in(fo))
+        ctx.ob(rule, 'make_keys: the order of the returned keys does not depend on set iteration (only sets of at most one element are turned into sequences)', not bad,
+               loc=f.loc(r), construct=construct(f, 'config:key order independent of hashing'), detail='; '.join(bad))
+        ctx.ob(rule, 'make_keys: the V2 key comes first, the V1 key is the fallback (fetch prefers the first key present; store writes the first)', v2_first, loc=f.loc(r),
+               construct=construct(f, 'order:v2 key first'), detail=norm(fo, 60))
+
+
+def check_extra_fields_single_impl(ctx: Ctx, rule: str) -> None:
+    """registries: the fields declared by handlers (`field=`) are added to the essence by ONE implementation for every registry section (watching, changing,
+    spawning): no section overrides get_extra_fields/iter_extra_fields, and cause detection unions all three (a timer's or daemon's field that is not tracked
+    makes a change of only that field an empty diff: no idle reset, no re-evaluation of its criteria on the essential diff)."""
+    repo = ctx.repo
+    base = repo.cls('registries.ResourceRegistry')
+    for m in ('get_extra_fields', 'iter_extra_fields'):
+        ctx.ob(rule, f'ResourceRegistry.{m} exists', m in base.methods, loc=base.module.relpath() + f':{base.node.lineno}', construct=f'{base.qualname}:dispatch:{m} defined')
+    n = 0
+    for q, c in sorted(repo.classes.items()):
+        if c is base or not repo.is_subclass(q, base.qualname):
+            continue
+        n += 1
+        over = [m for m in ('get_extra_fields', 'iter_extra_fields') if m in c.methods]
+        ctx.ob(rule, f'{q.rsplit(".", 1)[1]}: inherits the extra-fields computation of ResourceRegistry unchanged', not over, loc=c.module.relpath() + f':{c.node.lineno}',
+               construct=f'{q}:dispatch:extra fields not overridden', detail=f'overrides {over}')
+    ctx.require_sites(rule, 'registry sections derived from ResourceRegistry', n, 4, base.module.relpath())
+    f = repo.fn('processing._detect_causes')
+    ctx.analysed(f)
+    secs = {dotted(method_call(c, 'get_extra_fields')).rsplit('.', 1)[-1] for c in calls_in(f.node) if method_call(c, 'get_extra_fields') is not None
+            and dotted(method_call(c, 'get_extra_fields'))}
+    ctx.ob(rule, '_detect_causes: the extra fields of the watching, changing AND spawning sections are all part of the essence', {'_watching', '_changing', '_spawning'} <= secs,
+           loc=f.loc(), construct=construct(f, 'config:extra fields of all sections'), detail=str(sorted(secs)))
+
+
+def check_vault_invalid_history(ctx: Ctx, rule: str) -> None:
+    """credentials.Vault: the history of invalidated credentials only grows (bounded trimming inside `invalidate` itself): nothing else removes, clears or
+    replaces entries of `_invalid` -- a forgotten entry lets a login handler re-offer credentials that already got a 401, which are then reused."""
+    repo = ctx.repo
+    cls = repo.cls('credentials.Vault')
+    writers = []
+    for mname, m in sorted(cls.methods.items()):
+        for n in walk_no_defs(m.node):
+            hit = False
+            if isinstance(n, (ast.Assign, ast.AugAssign, ast.AnnAssign)):
+                tg = n.targets if isinstance(n, ast.Assign) else [n.target]
+                hit = any(_self_attr(t) == '_invalid' for t in tg)
+            elif isinstance(n, ast.Delete):
+                hit = any(_self_attr(t) == '_invalid' for t in n.targets)
+            elif isinstance(n, ast.Call) and isinstance(n.func, ast.Attribute) and n.func.attr in MUTATORS and _self_attr(n.func.value) == '_invalid':
+                hit = True
+            if hit:
+                writers.append((mname, m, n))
+    ctx.require_sites(rule, 'Vault: writes of the invalidated-credentials history', len(writers), 2, cls.module.relpath())
+    for mname, m, n in writers:
+        ok = mname in ('__init__', 'invalidate') and not isinstance(n, ast.Delete) and not (isinstance(n, ast.Call) and n.func.attr in ('clear', 'pop', 'popitem', 'remove', 'discard'))
+        ctx.ob(rule, f'Vault.{mname}: the history of invalidated credentials is written only by the constructor and by invalidate(), and never deleted or cleared', ok,
+               loc=m.loc(n), construct=construct(m, 'confine:_invalid writers'), detail=norm(n, 80))
+    inv = cls.methods.get('invalidate')
+    if inv is not None:
+        keeps = [n for n in walk_no_defs(inv.node) if isinstance(n, ast.Assign) and any(_self_attr(t) == '_invalid' for t in n.targets)]
+        for n in keeps:
+            has_current = any(_self_attr(x) == '_current' for x in ast.walk(n.value))
+            ctx.ob(rule, 'Vault.invalidate: the item being invalidated is appended to the history (the trimmed tail of earlier ones is kept)', has_current and
+                   isinstance(n.value, ast.BinOp) and isinstance(n.value.op, ast.Add), loc=inv.loc(n), construct=construct(inv, 'flow:_invalid += current'), detail=norm(n.value, 80))
+
 # ---------------------------------------------------------------------------------------------------------------- cross-wiring
 def _c01_worker(ctx: Ctx, rule: str) -> None:
     from . import C01
@@ -637,6 +767,11 @@ EXTRA['C11'] += [(check_record_field_mapping, 'R11.8'), (check_pressure_relief, 
 EXTRA['C03'] += [(check_pressure_relief, 'R3.10'), (check_apply_always, 'R3.11')]
 EXTRA['C08'] += [(check_apply_always, 'R8.9'), (check_deliver_results, 'R8.10')]
 EXTRA['C18'] += [(check_response_payload, 'R18.36')]
+EXTRA['C16'] += [(check_key_order_deterministic, 'R16.11')]
+EXTRA['C10'] = [(check_extra_fields_single_impl, 'R10.7')]
+EXTRA['C15'] += [(check_extra_fields_single_impl, 'R15.9')]
+EXTRA['C04'] = [(check_extra_fields_single_impl, 'R4.9')]
+EXTRA['C12'] += [(check_vault_invalid_history, 'R12.31')]
 
 
 _CV = 'CONDVAR: every change of the state awaited through a Condition.wait_for predicate is followed by an unconditional notify_all on every normal path'
@@ -649,6 +784,8 @@ KINDS = {
     'C06': 'cross-wired staged-termination rule set of C09 (stage parameters are per daemon)',
     'C08': 'BOUNDARY: subresource discovery uses the "<name>/" prefix; ALLEXITS: apply() on every completed cycle; TABLE+ALLEXITS: handler results are delivered '
            'into the patch after every execution',
+    'C10': 'DISPATCH: one implementation of the handler-declared extra fields for all registry sections (a timer\'s field is part of the essential diff that resets idling)',
+    'C04': 'DISPATCH: one implementation of the handler-declared extra fields for all registry sections',
     'C11': 'cross-wired spawning-order table of C09; KEYS field mapping; pressure relief',
     'C12': 'FRESH: no suspension point between a clock sample and its use in the throttling-deadline arithmetic; FLOW: the stored credentials are the object '
            'that was compared with the invalidated ones',
